@@ -3008,7 +3008,13 @@ impl Server {
             _ => return Ok(RespFrame::error("ERR invalid decrement format")),
         };
         
-        match self.storage.incr_by(db, key, -decrement) {
+        // The decrement is negated: i64::MIN has no negation and must be refused, not wrapped
+        let increment = match decrement.checked_neg() {
+            Some(n) => n,
+            None => return Ok(RespFrame::error("ERR decrement would overflow")),
+        };
+        
+        match self.storage.incr_by(db, key, increment) {
             Ok(new_value) => Ok(RespFrame::Integer(new_value)),
             Err(e) => Ok(RespFrame::error(e.to_string())),
         }
